@@ -39,6 +39,9 @@ pub enum Op {
     Retry,
     /// Node::update_velocity_controls with the policy unchanged (runtime policy reload hook)
     Reload,
+    /// SignInvoice for one of three invoices to be issued: 0 and 1 share a payment hash and
+    /// differ in amount and description (the second one presented is refused), 2 is unrelated
+    Issue(u8),
 }
 
 #[derive(Clone, Default, Debug, Serialize)]
@@ -96,6 +99,24 @@ fn make_invoice(x: u8, amt_msat: u64, now: u64) -> Invoice {
     )
 }
 
+fn raw_invoice_to_issue(k: u8) -> lightning_signer::lightning_invoice::RawBolt11Invoice {
+    let (x, amt, desc) = match k {
+        0 => (70u8, 100_000u64, "first"),
+        1 => (70, 1_000, "second"),
+        _ => (71, 5_000, "other"),
+    };
+    InvoiceBuilder::new(Currency::Regtest)
+        .description(desc.into())
+        .payment_hash(Sha256Hash::hash(&[x; 32]))
+        .payment_secret(PaymentSecret([x; 32]))
+        .duration_since_epoch(Duration::from_secs(START_TIME))
+        .expiry_time(Duration::from_secs(86_400))
+        .min_final_cltv_expiry_delta(144)
+        .amount_milli_satoshis(amt)
+        .build_raw()
+        .unwrap()
+}
+
 fn window_sum(log: &[(u64, u64)], now: u64) -> u128 {
     log.iter().filter(|(t, _)| now - *t <= WINDOW).map(|(_, a)| *a as u128).sum()
 }
@@ -145,6 +166,7 @@ impl Model for VelModel {
         ]
         .into_iter()
         .chain(if s.ghost.last.is_some() { Some(Op::Retry) } else { None })
+        .chain(if self.monitors { vec![Op::Issue(0), Op::Issue(1), Op::Issue(2)] } else { vec![] })
         .collect()
     }
 
@@ -174,6 +196,7 @@ impl Model for VelModel {
             Op::Onchain(..) => "check_onchain_tx",
             Op::Advance(..) => "advance",
             Op::Reload => "update_velocity_controls",
+            Op::Issue(_) => "sign_bolt11_invoice",
             Op::Restart => "restart",
         };
         match op {
@@ -190,6 +213,12 @@ impl Model for VelModel {
             }
             Op::Advance(dt) => {
                 s.w().clock.set(Duration::from_secs(now + dt));
+            }
+            Op::Issue(k) => {
+                let node = s.w().node.clone();
+                let k = *k;
+                let r = call(move || node.sign_bolt11_invoice(raw_invoice_to_issue(k)).map(|_| ()).map_err(|e| status_kind(&e)));
+                tag = r.tag();
             }
             Op::Reload => {
                 let node = s.w().node.clone();
